@@ -24,7 +24,19 @@ type source struct {
 	input string
 	funcs map[string]any
 	prog  *c16.Prog // the abstract program the source was rendered from, if any
+	// variant, if set, changes an ENTRY of funcs (same map, same name, same type, another function value)
+	// between two sequential executions; nvariants is the number of variants (0 or 1: none)
+	variant   func(funcs map[string]any, v int)
+	nvariants int
 }
+
+// Apis are the execution interfaces, in the order in which the executions
+// of a trace cycle through them (so that executions number 1, 4, 7 are
+// consecutive calls of ExecProgram on the one Program).
+var Apis = []string{ApiNewExecute, ApiExecProgram, ApiNewExecuteContext}
+
+// Seq is the number of sequential executions of a trace.
+const Seq = 9
 
 var nativeFuncs = map[string]any{
 	"na": func(n int) int { return n + 1 },
@@ -35,35 +47,49 @@ var nativeFuncs = map[string]any{
 // fixed menu: the features whose implementation keeps per-program or
 // per-interpreter caches (regexes, formats, fields, arrays, functions)
 var menu = []source{
-	{"regex-literal", `{ if ($0 ~ /^a+b/) n++; if ($1 ~ /c$/) m++ } END { print n + 0, m + 0 }`, "aab c\nxc d\nab\n", nil, nil},
-	{"regex-dynamic", `BEGIN { r = "^[ab]+" } { if (match($0, r)) print RSTART, RLENGTH; sub(r, "<&>"); print }`, "abba x\nzz\nbab\n", nil, nil},
-	{"printf-formats", `{ printf "%5.2f|%-4s|%d|%c\n", $1, $2, $1, $2 } END { printf "%s %s\n", NR, sprintf("%03d", NR) }`, "3.14159 abc\n2 z\n", nil, nil},
-	{"arrays-split", `{ n = split($0, parts, ","); for (i = 1; i <= n; i++) cnt[parts[i]]++ } END { print cnt["a"] + 0, cnt["b"] + 0, length(cnt) }`, "a,b,a\nb,c\n", nil, nil},
-	{"functions-recursion", `function fib(n) { return n < 2 ? n : fib(n-1) + fib(n-2) } function fill(arr, n,  i) { for (i = 0; i < n; i++) arr[i] = fib(i) } BEGIN { fill(t, 12); print t[11], length(t) }`, "", nil, nil},
-	{"fields-assign", `{ $2 = "X"; NF = 3; print; print NF } END { $0 = "p q r s"; print $3, NF }`, "a b c d\ne\n", nil, nil},
-	{"getline-vars", `BEGIN { while ((getline line) > 0) { n++; s = s line ";" } print n, s; OFS = "-"; $0 = "x y"; $1 = $1; print }`, "l1\nl2\nl3\n", nil, nil},
-	{"gsub-tolower-substr", `{ x = $0; gsub(/[aeiou]/, "#", x); print toupper(substr(x, 2, 4)), index($0, "b"), length() }`, "abecedarian\nrhythm\n", nil, nil},
-	{"range-next-exit", `NR == 2, NR == 3 { print "in", $0; next } { print "out", $0 } NR == 5 { exit 3 }`, "1\n2\n3\n4\n5\n6\n", nil, nil},
-	{"numeric-strings", `{ print ($1 == $2), ($1 < $2), $1 + $2, $1 $2 } END { CONVFMT = "%.2g"; a = 3.14159; b = a ""; print b }`, "10 9\nabc abd\n1e2 100\n", nil, nil},
-	{"natives", `function fa(x) { return na(x) } function fb(y) { return nb(y) } { print fa($1), fb($2), nc($1, 2) }`, "1 a\n5 bc\n", nativeFuncs, nil},
-	{"uninit-delete-in", `BEGIN { if (!("k" in arr)) print "absent"; arr["k"]; if ("k" in arr) print "present"; delete arr["k"]; print length(arr), x + 0, "[" y "]" }`, "", nil, nil},
+	{"regex-literal", `{ if ($0 ~ /^a+b/) n++; if ($1 ~ /c$/) m++ } END { print n + 0, m + 0 }`, "aab c\nxc d\nab\n", nil, nil, nil, 0},
+	{"regex-dynamic", `BEGIN { r = "^[ab]+" } { if (match($0, r)) print RSTART, RLENGTH; sub(r, "<&>"); print }`, "abba x\nzz\nbab\n", nil, nil, nil, 0},
+	{"printf-formats", `{ printf "%5.2f|%-4s|%d|%c\n", $1, $2, $1, $2 } END { printf "%s %s\n", NR, sprintf("%03d", NR) }`, "3.14159 abc\n2 z\n", nil, nil, nil, 0},
+	{"arrays-split", `{ n = split($0, parts, ","); for (i = 1; i <= n; i++) cnt[parts[i]]++ } END { print cnt["a"] + 0, cnt["b"] + 0, length(cnt) }`, "a,b,a\nb,c\n", nil, nil, nil, 0},
+	{"functions-recursion", `function fib(n) { return n < 2 ? n : fib(n-1) + fib(n-2) } function fill(arr, n,  i) { for (i = 0; i < n; i++) arr[i] = fib(i) } BEGIN { fill(t, 12); print t[11], length(t) }`, "", nil, nil, nil, 0},
+	{"fields-assign", `{ $2 = "X"; NF = 3; print; print NF } END { $0 = "p q r s"; print $3, NF }`, "a b c d\ne\n", nil, nil, nil, 0},
+	{"getline-vars", `BEGIN { while ((getline line) > 0) { n++; s = s line ";" } print n, s; OFS = "-"; $0 = "x y"; $1 = $1; print }`, "l1\nl2\nl3\n", nil, nil, nil, 0},
+	{"gsub-tolower-substr", `{ x = $0; gsub(/[aeiou]/, "#", x); print toupper(substr(x, 2, 4)), index($0, "b"), length() }`, "abecedarian\nrhythm\n", nil, nil, nil, 0},
+	{"range-next-exit", `NR == 2, NR == 3 { print "in", $0; next } { print "out", $0 } NR == 5 { exit 3 }`, "1\n2\n3\n4\n5\n6\n", nil, nil, nil, 0},
+	{"numeric-strings", `{ print ($1 == $2), ($1 < $2), $1 + $2, $1 $2 } END { CONVFMT = "%.2g"; a = 3.14159; b = a ""; print b }`, "10 9\nabc abd\n1e2 100\n", nil, nil, nil, 0},
+	{"natives", `function fa(x) { return na(x) } function fb(y) { return nb(y) } { print fa($1), fb($2), nc($1, 2) }`, "1 a\n5 bc\n", nativeFuncs, nil, nil, 0},
+	// the SAME regular expression source as a stand-alone pattern (the object compiled into the Program) and in the
+	// positions where the interpreter compiles it at run time (match, gsub, split, ~ with a field, a dynamic string);
+	// a|ab tells leftmost-longest from leftmost-first
+	{"regex-same-source", `/a|ab/ { n++ } { if (match($0, /a|ab/)) print RSTART, RLENGTH; x = $0; k = gsub(/a|ab/, "<&>", x); print k, x; print split($0, parts, /a|ab/); if ($1 ~ /a|ab/) m++; r = "a|ab"; if ($0 ~ r) d++ } END { print n + 0, m + 0, d + 0 }`, "xaby ab\nzzz\nabab\n", nil, nil, nil, 0},
+	{"regex-same-source-sub", `/^[0-9]+|x/ { c++ } { y = $0; sub(/^[0-9]+|x/, "#", y); print y; if (y ~ /b+/) print "b:", match(y, /b+/), RLENGTH } /b+/ { b++ } END { print c + 0, b + 0 }`, "123abc\nxbbx\nq\n", nil, nil, nil, 0},
+	// output that depends on the random generator: every execution starts from the same seed
+	{"rand-no-srand", `BEGIN { for (i = 0; i < 5; i++) printf "%d ", int(rand() * 1000); print "" } { print int(rand() * 100) }`, "a\nb\n", nil, nil, nil, 0},
+	{"srand-return", `BEGIN { print srand(42); print srand(7); print int(rand() * 1000); print srand(7); print int(rand() * 1000) }`, "", nil, nil, nil, 0},
+	{"rand-pick", `function pick(n,  i, s) { for (i = 1; i <= n; i++) if (rand() < 0.5) s = s " " i; return s } BEGIN { print "picked:" pick(10) } END { print srand() }`, "", nil, nil, nil, 0},
+	// the Go functions of Config.Funcs change (same map, same names and types) between two sequential executions
+	{"natives-variant", `{ print na($1), nb($2) }`, "1 a\n5 bc\n", map[string]any{
+		"na": func(n int) int { return n + 1 },
+		"nb": func(s string) string { return s + "!" },
+	}, nil, func(funcs map[string]any, v int) {
+		k := v
+		funcs["na"] = func(n int) int { return n + 1 + 10*k }
+	}, 2},
+	{"uninit-delete-in", `BEGIN { if (!("k" in arr)) print "absent"; arr["k"]; if ("k" in arr) print "present"; delete arr["k"]; print length(arr), x + 0, "[" y "]" }`, "", nil, nil, nil, 0},
 }
 
-func runOnce(prog *parser.Program, s *source) string {
+func runOnce(prog *parser.Program, s *source, api string) string {
 	var out bytes.Buffer
 	status, err, pv := 0, error(nil), any(nil)
 	func() {
 		defer func() { pv = recover() }()
-		var in *interp.Interpreter
-		in, err = interp.New(prog)
-		if err != nil {
-			return
-		}
-		status, err = in.Execute(&interp.Config{Stdin: strings.NewReader(s.input), Output: &out, Error: &out,
+		status, err = ExecVia(api, prog, &interp.Config{Stdin: strings.NewReader(s.input), Output: &out, Error: &out,
 			Environ: []string{}, Funcs: s.funcs})
 	}()
 	return fmt.Sprintf("status=%d err=%v panic=%v out=%q", status, err, pv, out.String())
 }
+
+func variantName(v int) string { return fmt.Sprintf("v%d", v) }
 
 func varies(v Variation, src string, cfg *parser.ParserConfig) string {
 	switch v.Kind {
@@ -77,8 +103,10 @@ func varies(v Variation, src string, cfg *parser.ParserConfig) string {
 	return v.Kind + "/recorded"
 }
 
-// RecordOne writes the events of one trace: parse, G sequential executions,
-// then G concurrent goroutines each executing `rounds` times.
+// recordOne writes the events of one trace: parse, Seq sequential executions
+// cycling through the execution interfaces (and through the variants of
+// Config.Funcs, if the source has any), then G concurrent goroutines each
+// executing `rounds` times through its interface.
 func recordOne(emit func(any), s *source, rounds int) error {
 	cfg := &parser.ParserConfig{Funcs: s.funcs}
 	emit(map[string]any{"ev": "reset"})
@@ -97,14 +125,33 @@ func recordOne(emit func(any), s *source, rounds int) error {
 	if err != nil {
 		return fmt.Errorf("second parse of %s failed: %v", s.name, err)
 	}
-	solo := runOnce(own, s)
+	nv := s.nvariants
+	if nv < 1 {
+		nv = 1
+	}
+	setVariant := func(k int) {
+		if s.variant != nil {
+			s.variant(s.funcs, k)
+		}
+	}
+	// what a single execution produces, per variant: on a Program of its own, with a new interpreter
+	solo := map[string]any{}
+	for k := 0; k < nv; k++ {
+		setVariant(k)
+		solo[variantName(k)] = runOnce(own, s, ApiNewExecute)
+	}
 	d0 := Digest(prog)
 	emit(map[string]any{"ev": "step", "op": "parse", "name": s.name, "digest": d0, "solo": solo, "src": s.src})
-	for i := 0; i < G; i++ {
+	for i := 0; i < Seq; i++ {
+		k := (i / len(Apis)) % nv // executions 1-3 variant 0, 4-6 variant 1, ...
+		setVariant(k)
+		api := Apis[i%len(Apis)]
 		before := Digest(prog)
-		r := runOnce(prog, s)
-		emit(map[string]any{"ev": "step", "op": "exec", "proc": i + 1, "phase": "seq", "before": before, "after": Digest(prog), "result": r})
+		r := runOnce(prog, s, api)
+		emit(map[string]any{"ev": "step", "op": "exec", "proc": i + 1, "phase": "seq", "api": api, "variant": variantName(k),
+			"before": before, "after": Digest(prog), "result": r})
 	}
+	setVariant(0) // the map is not touched while the goroutines run
 	type rec struct {
 		proc          int
 		before, after string
@@ -120,7 +167,7 @@ func recordOne(emit func(any), s *source, rounds int) error {
 			<-start
 			for k := 0; k < rounds; k++ {
 				before := Digest(prog)
-				r := runOnce(prog, s)
+				r := runOnce(prog, s, Apis[i%len(Apis)])
 				recs[i] = append(recs[i], rec{i + 1, before, Digest(prog), r})
 			}
 		}(i)
@@ -129,7 +176,8 @@ func recordOne(emit func(any), s *source, rounds int) error {
 	wg.Wait()
 	for i := 0; i < G; i++ {
 		for _, r := range recs[i] {
-			emit(map[string]any{"ev": "step", "op": "exec", "proc": r.proc, "phase": "conc", "before": r.before, "after": r.after, "result": r.result})
+			emit(map[string]any{"ev": "step", "op": "exec", "proc": r.proc, "phase": "conc", "api": Apis[i%len(Apis)], "variant": variantName(0),
+				"before": r.before, "after": r.after, "result": r.result})
 		}
 	}
 	return nil
